@@ -8,5 +8,6 @@ INVARIANT InvIdentity
 INVARIANT InvSig
 INVARIANT InvEntries
 INVARIANT InvJarLaw
+INVARIANT InvVia
 INVARIANT Emit
 CHECK_DEADLOCK FALSE
